@@ -1,6 +1,6 @@
 // Group `mainwire`, units A1..A5 (accessors of `flags::Args`): specification functions written from
 // the statements of C14 / C15 / C16, and the E3 shims for the `.iter().map(..).collect()` chains.
-// Included *inside* the group's `verus! { .. }` block; needs prelude/blocks_ax.rs (OsString,
+// Included *inside* the group's `verus! { .. }` block; needs prelude/mainw_ax.rs (OsString,
 // `osstring_of`), prelude/tstr_mod.rs (`&str` key model) and prelude/mainw_globset.rs.
 
 // ---- A1: the -E map ---------------------------------------------------------------------------------
@@ -133,11 +133,3 @@ pub fn verif_vec_extend<T>(v: &mut Vec<T>, other: Vec<T>)
 {
     v.extend(other)
 }
-
-/// `Vec<String>::clone`: vstd specifies `Vec::clone` element-wise through `cloned`, which for `String`
-/// is not tied to the text. T-std (`impl Clone for String`: "Returns a copy of the value"): a vector
-/// of strings with the same texts, in the same order.
-#[verifier::external_body]
-pub fn verif_clone_strings(v: &Vec<String>) -> (r: Vec<String>)
-    ensures str_views(r@) == str_views(v@), r@.len() == v@.len(),
-{ v.clone() }
